@@ -4,7 +4,7 @@ ENGINES = [
      "kind_free_text": "stateless DFS over choice points of the real code, weighted, deviation-bounded"},
     {"name": "E2-bfs", "path": "mc/explore_bfs.py", "serves_properties": ["C19"],
      "kind_free_text": "explicit-state BFS over operation histories of real objects (replay from scratch, canonical-form dedup)"},
-    {"name": "lattice", "path": "mc/lattice.py", "serves_properties": ["C05", "C06", "C07", "C08", "C10", "C11", "C20"],
+    {"name": "lattice", "path": "mc/lattice.py", "serves_properties": ["C02", "C03", "C04", "C05", "C06", "C07", "C08", "C10", "C11", "C20"],
      "kind_free_text": "complete enumeration of a finite configuration / program lattice against an independent reference"},
 ]
 NOTES = ("All checks explore the real mici code imported from /repo/src; no abstract model. "
@@ -16,6 +16,24 @@ CLAIMED = {
         technique="exhaustive enumeration of all random-draw outcomes of Transition.sample (stateless choice-point DFS) with exact probabilities; stationarity checked on finite orbits",
         text="Every outcome of every random draw inside the real Transition.sample is enumerated with its exact probability on ring orbit tables (all energy tables over a 3-letter alphabet up to rotation, families of termination-criterion tables, all start states) and on windows of real integrator orbits; sum_i pi_i P(i->j) = pi_j is checked to 1e-10 and the reported n_step/accept statistics are checked in every execution.",
         note="Trusts CPython/NumPy; invariance is checked per orbit on finite tables/windows; continuous energies are a lattice.",
+    ),
+    "C02": dict(
+        engine="lattice", category="exploration", design_ref="DESIGN.md section 5 (C02)",
+        technique="complete enumeration of integrator configuration x system x metric x step size x trajectory length lattice, plus bounded enumeration of solver deviations (another genuine root returned at every solver call index)",
+        text="Every integrator configuration (explicit compositions with user coefficients, implicit leapfrog/midpoint x both fixed-point solvers, constrained leapfrog x three projection solvers x inner steps, default and tightened tolerances) x compatible system x metric x states x both directions x eps in {0.025..1.0} x n=1..3 is integrated forward, reversed and integrated back: it must return to the start to solver tolerance or raise an IntegratorError; the input state object must be bit-identical after every step. Environment deviations: at every projection-solver call index of a round trip the far root of the sphere constraint is returned instead; the round trip must raise or still return to the start.",
+        note="IntegratorError outcomes are allowed and counted; a floor of 60% completed round trips at small step sizes guards against vacuity.",
+    ),
+    "C03": dict(
+        engine="lattice", category="exploration", design_ref="DESIGN.md section 5 (C03)",
+        technique="complete enumeration of integrator x system lattice; finite-difference Jacobian and symplectic-form oracle (restricted to the cotangent bundle for constrained systems)",
+        text="For every integrator configuration x compatible system (non-linear targets, position-dependent metrics, curved manifolds) x metric x lattice states x step sizes the Jacobian of the n-step map is computed by 4th-order central differences with tightened solver tolerances and J^T Omega J = Omega is checked; for constrained systems a tangent basis of the cotangent bundle and harness-side projections are used and the induced form is compared before and after.",
+        note="Numerical oracle, lattice states only; tolerance 2e-6 (1+|J|^2).",
+    ),
+    "C04": dict(
+        engine="lattice", category="exploration", design_ref="DESIGN.md section 5 (C04)",
+        technique="complete enumeration of constraint x metric x density convention x solver x solver-kwargs x inner-step x step-size lattice with manifold monitors; direct solver calls judged by residual and Lagrange-form oracle",
+        text="Constraint residual and cotangent condition are monitored after every successful constrained step (3 consecutive steps), every sampled momentum and every projection, for all three projection solvers, inner step counts, solver kwargs (iteration / line-search caps) and step sizes incl. ones that provoke failure; direct solver calls from states after an unconstrained h2_flow (also far off the manifold) must either raise ConvergenceError or return a state whose residual is below tolerance and whose position/momentum correction has Lagrange-multiplier form (dense least squares).",
+        note="Start points are put on the manifold by harness code; lattice states only.",
     ),
     "C05": dict(
         engine="lattice", category="exploration", design_ref="DESIGN.md section 5 (C05)",
